@@ -18,6 +18,9 @@ on recurrence plots, including measures of recurrence quantification
 analysis (RQA) and recurrence network analysis.
 """
 
+from typing import Tuple
+from collections.abc import Hashable
+
 # array object and fast numerics
 import numpy as np
 
@@ -144,6 +147,12 @@ class RecurrenceNetwork(RecurrencePlot, Network):
             Network.__init__(self, A, directed=False,
                              node_weights=node_weights,
                              silence_level=silence_level)
+
+    def __cache_state__(self) -> Tuple[Hashable, ...]:
+        # the network part only exists once Network.__init__() has run
+        net_state = (Network.__cache_state__(self)
+                     if hasattr(self, "_mut_A") else ())
+        return RecurrencePlot.__cache_state__(self) + net_state
 
     def __str__(self):
         """
